@@ -68,7 +68,25 @@ pub fn execute_memoized_function<Db: Database>(
         db.get_storage().top_level_calls.push(derived_node_id);
     }
 
-    let (did_recalculate, time_updated) = if let Some((derived_node, revision)) = db
+    let (did_recalculate, time_updated) =
+        execute_memoized_function_impl(db, derived_node_id, inner_fn);
+    db.get_storage().register_dependency_in_parent_memoized_fn(
+        NodeKind::Derived(derived_node_id),
+        time_updated,
+    );
+    did_recalculate
+}
+
+/// The part of [`execute_memoized_function`] that is shared with the verification of
+/// dependencies (see [`derived_node_changed_since`]). A dependency that is re-verified was
+/// not called by whichever memoized function happens to be executing (nor by the user), so
+/// it must be registered neither as a dependency of that function nor as a top-level call.
+fn execute_memoized_function_impl<Db: Database>(
+    db: &Db,
+    derived_node_id: DerivedNodeId,
+    inner_fn: InnerFn<Db>,
+) -> (DidRecalculate, Epoch) {
+    if let Some((derived_node, revision)) = db
         .get_storage()
         .internal
         .get_derived_node_and_revision(derived_node_id)
@@ -95,12 +113,7 @@ pub fn execute_memoized_function<Db: Database>(
     } else {
         let _create_span = debug_span!("creating_new_derived_node").entered();
         create_derived_node(db, derived_node_id, inner_fn)
-    };
-    db.get_storage().register_dependency_in_parent_memoized_fn(
-        NodeKind::Derived(derived_node_id),
-        time_updated,
-    );
-    did_recalculate
+    }
 }
 
 fn create_derived_node<Db: Database>(
@@ -241,7 +254,7 @@ fn derived_node_changed_since<Db: Database>(
     } else {
         return true;
     };
-    let did_recalculate = execute_memoized_function(db, derived_node_id, inner_fn);
+    let (did_recalculate, _) = execute_memoized_function_impl(db, derived_node_id, inner_fn);
     matches!(
         did_recalculate,
         DidRecalculate::Recalculated | DidRecalculate::Error
